@@ -293,6 +293,8 @@ def off_op_term(o):
     if k == "recv":
         i = o.get("id", 0)
         return "(Recv %s %s %s)" % (gN(o.get("l", 0)), gopt(gN(i) if i >= 0 else None), glist(HK[c] for c in o["hs"]))
+    if k == "timeout":
+        return "(Timeout %s)" % gN(o.get("id", 0))
     return {"open": "MgrOpen", "reply": "ConnectReply", "close": "Close"}[k]
 
 
@@ -309,11 +311,16 @@ def off_term(row, upto=None):
 def off_show(row):
     def one(o):
         if o["op"] == "emit":
+            if o.get("tmo"):
+                return "emit(%d%s,ack+timeout%s)" % (o.get("l", 0), ",volatile" if o.get("vol") else "",
+                                                     ",%d attachments" % o["att"] if o.get("att") else "")
             chain = {"vt": ",Volatile().Timeout(d)", "tv": ",Timeout(d).Volatile()", "t": ",Timeout(d)"}.get(o.get("chain", ""), "")
             return "emit(%d%s%s%s%s)" % (o.get("l", 0), ",volatile" if o.get("vol") else "", ",ack" if o.get("ack") else "", chain,
                                        ",%d attachments" % o["att"] if o.get("att") else "")
         if o["op"] == "recv":
             return "recv(%d,id=%d,handlers=%s)" % (o.get("l", 0), o.get("id", 0), o["hs"])
+        if o["op"] == "timeout":
+            return "timeout(ack id %d expires)" % o.get("id", 0)
         return o["op"]
     return [one(o) for o in row["ops"]]
 
@@ -378,7 +385,7 @@ def offline_suite(ctx, vh):
         kinds = set(o["op"] for o in r["ops"])
         parked = any(o["op"] == "emit" for o in r["ops"]) and "reply" in kinds
         ctx.count(1, nontrivial_key=("off", json.dumps(r["ops"], sort_keys=True)) if parked else None,
-                  dist="offline:%s%s" % ("recv+" if "recv" in kinds else "", "reconnect" if sum(1 for o in r["ops"] if o["op"] == "open") > 1 else "single"))
+                  dist="offline:%s%s%s" % ("timeout+" if "timeout" in kinds else "", "recv+" if "recv" in kinds else "", "reconnect" if sum(1 for o in r["ops"] if o["op"] == "open") > 1 else "single"))
     ctx.sample({"suite": "offline/live", "ops": off_show(rows[len(rows) // 2]), "wire": rows[len(rows) // 2]["wire"]})
     ctx.obligation("correspondence:offline/live", "correspondence", not bad_agree,
                    "%d histories (<= 13 ops) against a real client + raw protocol server, %d disagree, %d stopped early" % (
